@@ -38,6 +38,10 @@ class SI:
 
 
 @guppy.declare
+def use_int(n: int) -> None: ...
+
+
+@guppy.declare
 def own1(q: qubit @owned) -> None: ...
 
 
@@ -85,7 +89,7 @@ def own_t(t: tuple[qubit, qubit] @owned) -> None: ...
 def bor_t(t: tuple[qubit, qubit]) -> None: ...
 '''
 
-HELPER_NAMES = ["h", "cx", "S2", "SI", "own1", "own_ret", "bor1", "bor2", "bor_ret", "mix", "own_s2", "bor_s2",
+HELPER_NAMES = ["use_int", "h", "cx", "S2", "SI", "own1", "own_ret", "bor1", "bor2", "bor_ret", "mix", "own_s2", "bor_s2",
                 "own_si", "bor_si", "own_t", "bor_t"]
 
 TY_SRC = {"Q": "qubit", "T": "tuple[qubit, qubit]", "S2": "S2", "SI": "SI", "I": "int", "B": "bool", None: "None"}
@@ -146,6 +150,8 @@ def r_block(stmts, ind, out):
             out.append(pad + r_expr(s[1]))
         elif k == "retype":
             out.append(f"{pad}{s[1]} = 0")
+            if len(s) > 2 and s[2]:
+                out.append(f"{pad}use_int({s[1]})")
         elif k == "if":
             out.append(f"{pad}if {s[1]}:")
             r_block(s[2], ind + 1, out)
@@ -1251,9 +1257,9 @@ def add_retype(rnd, fn):
     if last[0] == "return":
         if _mentions(last, x):
             return None
-        body.insert(len(body) - 1, ["retype", x])
+        body.insert(len(body) - 1, ["retype", x, rnd.randrange(2) == 0])
     elif falls_through(last):
-        body.append(["retype", x])
+        body.append(["retype", x, rnd.randrange(2) == 0])
     else:
         return None
     return f"retype {x}"
